@@ -66,8 +66,18 @@ def gen_dynamics(rng):
         r0 = rows[0]
         rows[0] = (r0[0], dict(r0[1], U=1.0), r0[2] - exo[0])   # same fixed point when U frozen at U[0]
     deco = rng.random() < 0.6
+    # a within-period simultaneous loop driven by the first state (solved with a tight per-period tolerance), and a
+    # derived variable that is a small difference of a converging state and a constant
+    loop = rng.choice([None, None, 0.5, 0.9])
+    tgt0 = None
+    r0 = rows[0]
+    lam0 = list(r0[1].values())[0] if len(r0[1]) == 1 else None
+    if lam0 is not None and abs(lam0) < 1 and kind_tags[0] in ('stable', 'slow', 'negative'):
+        c0 = r0[2] + (exo[0] if exo is not None else 0.0)
+        tgt0 = c0 / (1 - lam0)
+    near = (0.99 * tgt0) if (tgt0 is not None and abs(tgt0) > 1.0 and rng.random() < 0.6) else None
     return {'rows': [[n, c, k] for n, c, k in rows], 'names': names, 'ics': ics, 'exo': exo, 'deco': deco,
-            'kinds': kind_tags}
+            'kinds': kind_tags, 'loop': loop, 'near_cancel': near}
 
 
 def render(d, maxtime=5):
@@ -83,6 +93,11 @@ def render(d, maxtime=5):
     if d['deco']:
         out.append('total = ' + ' + '.join(d['names']))
         out.append('neg = -2.0*' + d['names'][0] + ' - 1.0')
+    if d.get('loop'):
+        out.append('YY = CC + ' + d['names'][0])
+        out.append('CC = %r*YY' % (d['loop'],))
+    if d.get('near_cancel') is not None:
+        out.append('bal = %s - %r' % (d['names'][0], float(d['near_cancel'])))
     out.append('MaxTime = %d' % maxtime)
     if d['exo'] is not None:
         out.append('exogenous')
@@ -105,7 +120,7 @@ class C15(object):
     assumptions = ['slack %g: a mode of modulus <= 2 may grow one step past the acceptance test' % SLACK,
                    'inner solves are exact (recursive blocks), so inner tolerance cannot blur the verdict']
     required_counters = ('accepted.judged', 'accepted.negative_valued', 'rejected.judged', 'untouched.judged',
-                         'via_solve_equation')
+                         'via_solve_equation', 'inner_loop_tight_tolerance.cases', 'near_cancelling_derived.cases')
 
     def n_cases(self, tier):
         return 300 if tier == 'quick' else 20000
@@ -115,7 +130,10 @@ class C15(object):
         via_solve = rng.random() < 0.3
         if via_solve and d['exo'] is not None:
             d['exo'] = [d['exo'][0]] * len(d['exo'])     # constant input: period 1 of the real solve IS the further step
-        return {'kind': 'search', 'dyn': d, 'text': render(d), 'T': rng.choice([3, 5, 10, 30, 100, 300, 300]),
+        T = rng.choice([3, 5, 10, 30, 100, 300, 300])
+        if d.get('loop'):
+            T = min(T, 100)      # tight per-period solves of a loop with gain 0.9 are slow
+        return {'kind': 'search', 'dyn': d, 'text': render(d), 'T': T,
                 'tol': 10 ** rng.uniform(-8, -2), 'reduction': rng.random() < 0.5, 'via_solve': via_solve}
 
     def run_case(self, case):
@@ -128,6 +146,13 @@ class C15(object):
             s.SetInitialConditions()
         s.ParameterInitialSteadyStateMaxTime = case['T']
         s.ParameterInitialSteadyStateErrorToler = case['tol']
+        if case['dyn'].get('loop'):
+            # the user asks for exact per-period solves; the search has to honour that
+            s.ParameterErrorTolerance = 1e-13
+            s.MaxIterations = 5000
+            rec.count('inner_loop_tight_tolerance.cases')
+        if case['dyn'].get('near_cancel') is not None:
+            rec.count('near_cancelling_derived.cases')
         exo_names = [n for n, _ in s.Parser.Exogenous]
 
         def snap():
